@@ -19,8 +19,8 @@ from sim import shims, trace
 ID = "C06"
 ENGINE = "threadsim"
 LEVEL = "exploration"
-TIERS = {"quick": {"runs": 40000, "timeout": 1200}, "thorough": {"runs": 1200000, "timeout": 7200,
-                                                                "lane_timeout": 1800}}
+TIERS = {"quick": {"runs": 40000, "timeout": 3600, "lane_timeout": 1800}, "thorough": {"runs": 1200000, "timeout": 21600,
+                                                                "lane_timeout": 10800}}
 EST_STEPS = [60, 200, 600]
 P_OPCODE = 0.0
 MAX_STEPS = 20000
@@ -572,7 +572,7 @@ PROBE_VARIANTS = [("first", 2), ("seq", 2), ("map", 2), ("iter", 3), ("count", 2
 def _run_probe(variant, nthreads):
     cmd = [B.PY, os.path.join(B.VERIF, "checks", "c06_probe.py"), variant, str(nthreads)]
     try:
-        r = subprocess.run(cmd, env=B.controlled_env(0), capture_output=True, text=True, timeout=40, cwd=B.VERIF)
+        r = subprocess.run(cmd, env=B.controlled_env(0), capture_output=True, text=True, timeout=180, cwd=B.VERIF)
     except subprocess.TimeoutExpired:
         return "hang", "parent timeout"
     if r.returncode == 0:
